@@ -47,3 +47,21 @@ def run_explorer(factory: Callable[..., Any], fargs: tuple, units: Sequence[Any]
         coverage[f'count_{k}'] = v
     return {'violations': violations, 'coverage': coverage, 'errors': agg.errors, 'assumptions': assumptions,
             'bounds': bounds, 'level': 'model_checking', 'complete': not capped}
+
+
+def merge(outs: List[Dict[str, Any]]) -> Dict[str, Any]:
+    """Combine the results of several explorations run by one check."""
+    first = outs[0]
+    cov = dict(first['coverage'])
+    for other in outs[1:]:
+        oc = other['coverage']
+        for key in ('states', 'transitions', 'traces_validated_against_impl', 'evaluations', 'distinct_nontrivial',
+                    'distinct_outcomes', 'programs', 'caps_hit', 'violating_executions', 'violation_signatures'):
+            cov[key] = cov.get(key, 0) + oc.get(key, 0)
+        cov['exhaustive'] = cov['exhaustive'] and oc['exhaustive']
+        cov['rule'] = cov['rule'] + ' || ' + oc['rule']
+        cov['samples'] = list(cov['samples']) + list(oc['samples'])[:2]
+        cov['bounds'] = {'part1': cov.get('bounds'), 'part2': oc.get('bounds')}
+    return {'violations': [v for o in outs for v in o['violations']], 'coverage': cov,
+            'errors': [e for o in outs for e in o['errors']], 'assumptions': first['assumptions'],
+            'bounds': cov.get('bounds'), 'level': 'model_checking', 'complete': all(o.get('complete', True) for o in outs)}
